@@ -25,6 +25,9 @@ def c11(c):
         "to the application; allocator trace with the Appends that directly follow a buffer's Malloc merged into it; the outcome of every inflate "
         "is an oracle input taken from the generated data); BodyAlloc.v to nbhttp/body.go through the overlay accessor VerifBodyAppend (per operation: "
         "result, number of buffers, index, left; allocator trace without the model's Use events, which the real side cannot observe)",
+        "wsrecv also covers handlers that panic (message, data frame, ping/pong/close handler) x ReleasePayload on/off x an executor that recovers "
+        "(default task pool, job runner) or a plain call (application's own executor: the panic reaches Parse's recover) x blocking-mode SyncCall / "
+        "Execute dispatch; a panic escaping Parse itself would be caught by the harness and the trace checked all the same",
         "overlay accessors owned by this component: overlay/add/nbhttp/zz_verif_bufown.go (BodyReader.append), "
         "overlay/add/nbhttp/websocket/zz_verif_bufown.go (Conn.releasePayload setter); used from other components: verifsys, zz_verif_conn.go, "
         "zz_verif_ws.go (VerifGetState)",
@@ -73,7 +76,7 @@ MANIFEST = {
              "ones, frame and control payload copies, inflate into readAll's buffer with its failure branches, the recover path, hand-over to the handlers with ReleasePayload "
              "on/off incl. the empty-payload case of D24, the close frames the receive path sends, CloseAndClean also from inside a handler) for ALL frame streams x "
              "segmentations x inflate outcomes: cache + message + what the application was given are exactly the live buffers; after close only the latter; with ReleasePayload "
-             "nothing. Part 5: BodyReader for ALL append/Read/Close sequences: its buffers are exactly the live ones, Close returns all. Tie to the code: an allocator "
+             "and an executor that recovers handler panics nothing (a handler panic that escapes into Parse's recover still releases the payload exactly once; a frame copy waiting for its own handler is dropped, not returned). Part 5: BodyReader for ALL append/Read/Close sequences: its buffers are exactly the live ones, Close returns all. Tie to the code: an allocator "
              "implementing mempool.Allocator is installed as mempool.DefaultMemPool and Config.BodyAllocator (nbhttp and nbio); it records the event trace of the REAL code with "
              "stable ids, keeps a live map, poisons on Free, never recycles. Every model is run on the same programs as the real code (response: handler programs x failing "
              "write at every k; write queue: real nbio.Conn on a simulated descriptor with scripted syscalls; receive path: real websocket.Conn in both roles fed frame streams "
